@@ -23,6 +23,7 @@ import numpy as np
 import z3
 
 from . import symx
+from . import npshim as npshim_mod
 from .symx import Sym, SymBool, term
 
 # --------------------------------------------------------------------------
@@ -123,3 +124,301 @@ def remove_weight_leaves():
         if f is not None:
             cls._weights = f
     _SAVED_LEAVES.clear()
+
+
+# --------------------------------------------------------------------------
+# data proxies for the selection harness
+
+class YVal(object):
+    """A measured value that may be NaN: (real symbol, symbolic NaN flag)."""
+    __slots__ = ("v", "nan")
+
+    def __init__(self, v, nan):
+        self.v, self.nan = v, nan
+
+    def __repr__(self):
+        return "YVal(%s, nan=%s)" % (self.v, self.nan)
+
+
+class DataNp(npshim_mod.NpShim):
+    """``np`` for data.py / direct_model.py: isnan of YVal arrays forks on the flags."""
+
+    @staticmethod
+    def isnan(x):
+        if isinstance(x, np.ndarray) and x.dtype == object and x.size and isinstance(x.flat[0], YVal):
+            out = np.zeros(x.shape, dtype=bool)
+            for idx in np.ndindex(x.shape):
+                out[idx] = bool(SymBool(x[idx].nan))
+            return out
+        if isinstance(x, YVal):
+            return bool(SymBool(x.nan))
+        return npshim_mod.NpShim.isnan(x)
+
+
+class RecResolution(object):
+    """Recording stand-in for Pinhole1D / Slit1D / Pinhole2D: keeps its arguments,
+    evaluates the kernel at the selected points and returns theory unchanged."""
+
+    def __init__(self, kind, log):
+        self.kind, self.log = kind, log
+
+    def __call__(self, *args, **kw):
+        r = _Res(self.kind, args, kw)
+        self.log.append(r)
+        return r
+
+
+class _Res(object):
+    def __init__(self, kind, args, kw):
+        self.kind, self.args, self.kw = kind, args, kw
+        if kind == "Pinhole2D":
+            data, index = kw["data"], kw["index"]
+            self.q_calc = [data.qx_data[index], data.qy_data[index]]
+        else:
+            self.q_calc = args[0]
+
+    def apply(self, theory):
+        return theory
+
+
+def resolution_namespaces(log, real1d, real2d):
+    """(direct_model.resolution, direct_model.resolution2d) replacements."""
+    r1 = types.SimpleNamespace(Perfect1D=real1d.Perfect1D, Pinhole1D=RecResolution("Pinhole1D", log),
+                               Slit1D=RecResolution("Slit1D", log))
+    r2 = types.SimpleNamespace(Pinhole2D=RecResolution("Pinhole2D", log), Slit2D=real2d.Slit2D)
+    return r1, r2
+
+
+# --------------------------------------------------------------------------
+# symbolic string key and the dict proxy that holds it
+
+KEY_STUB = ("symbolic key: vlib.ifaces.SymKey (str subclass carrying a z3 String; == forks on the string "
+            "equality) held by vlib.ifaces.SymKeyDict (mapping with concrete entries plus one entry under the "
+            "symbolic key; pop/get/in/[]/setitem fork on key == name; copy/len/bool/keys/items as a dict); "
+            "functions with a ** parameter are entered through a clone of their code object whose ** parameter "
+            "is positional (same bytecode), and their own ** call sites re-wrap the converted dict; the "
+            "SasviewModel params/dispersion tables are re-housed in a dict subclass whose membership test forks")
+
+
+class SymKey(str):
+    """A string whose content is the z3 String term ``.t``.  It is a ``str`` so
+    that it survives ``f(**mapping)``; its hash is fixed, so a plain dict never
+    compares it with other names -- ``hashes`` counts those events and every
+    harness states how many it expects (plain-dict conversions it re-wraps)."""
+    hashes = 0
+
+    def __new__(cls, t, label="<symbolic key>", excluded=()):
+        o = str.__new__(cls, label)
+        o.t = t
+        o.excluded = frozenset(excluded)   # names the path ASSUMPTION says the key differs from
+        return o
+
+    def __hash__(self):
+        SymKey.hashes += 1
+        return str.__hash__(self)
+
+    def __eq__(self, o):
+        if o is self:
+            return True
+        if isinstance(o, SymKey):
+            return bool(SymBool(self.t == o.t))
+        if isinstance(o, str):
+            if o in self.excluded:
+                return False
+            return bool(SymBool(self.t == z3.StringVal(o)))
+        return False
+
+    def __ne__(self, o):
+        return not self.__eq__(o)
+
+    def split(self, sep=None, maxsplit=-1):
+        parts = getattr(self, "parts", None)
+        if parts is None or sep != ".":
+            raise TypeError("SymKey.split: only the enumerated '.' structure is supported")
+        return list(parts)
+
+
+class SymKeyDict(object):
+    def __init__(self, concrete, key=None, value=None):
+        self._d = dict(concrete)
+        self._k, self._v = key, value
+
+    # the one symbolic comparison
+    def _is_key(self, name):
+        if self._k is None:
+            return False
+        if name is self._k:
+            return True
+        if isinstance(name, SymKey):
+            return bool(SymBool(name.t == self._k.t))
+        if name in self._k.excluded:
+            return False
+        return bool(SymBool(self._k.t == z3.StringVal(name)))
+
+    def pop(self, name, *default):
+        if not isinstance(name, SymKey) and name in self._d:
+            return self._d.pop(name)
+        if self._is_key(name):
+            v, self._k, self._v = self._v, None, None
+            return v
+        if default:
+            return default[0]
+        raise KeyError(name)
+
+    def get(self, name, default=None):
+        if not isinstance(name, SymKey) and name in self._d:
+            return self._d[name]
+        return self._v if self._is_key(name) else default
+
+    def __getitem__(self, name):
+        if not isinstance(name, SymKey) and name in self._d:
+            return self._d[name]
+        if self._is_key(name):
+            return self._v
+        raise KeyError(name)
+
+    def __setitem__(self, name, value):
+        if not isinstance(name, SymKey) and name in self._d:
+            self._d[name] = value
+        elif self._is_key(name):
+            self._v = value
+        else:
+            self._d[name] = value
+
+    def __contains__(self, name):
+        if not isinstance(name, SymKey) and name in self._d:
+            return True
+        return self._is_key(name)
+
+    def copy(self):
+        return SymKeyDict(self._d, self._k, self._v)
+
+    def __len__(self):
+        return len(self._d) + (self._k is not None)
+
+    def __bool__(self):
+        return len(self) > 0
+
+    def keys(self):
+        return list(self._d.keys()) + ([self._k] if self._k is not None else [])
+
+    def __iter__(self):
+        return iter(self.keys())
+
+    def values(self):
+        return list(self._d.values()) + ([self._v] if self._k is not None else [])
+
+    def items(self):
+        return list(self._d.items()) + ([(self._k, self._v)] if self._k is not None else [])
+
+    def update(self, *a, **kw):
+        for k, v in dict(*a, **kw).items():
+            self[k] = v
+
+    @staticmethod
+    def rewrap(d):
+        """A plain dict produced by ``f(**proxy)`` back into a proxy."""
+        if isinstance(d, SymKeyDict):
+            return d
+        ks = [k for k in d if isinstance(k, SymKey)]
+        if not ks:
+            return d
+        conc = dict((k, v) for k, v in d.items() if not isinstance(k, SymKey))
+        return SymKeyDict(conc, ks[0], d[ks[0]])
+
+
+# --------------------------------------------------------------------------
+# entering functions that take **kwargs with the proxy intact
+
+_CO_VARARGS, _CO_VARKEYWORDS = 0x04, 0x08
+
+
+def kw_entry(fn):
+    """(clone, name of the ** parameter): *clone* runs fn's bytecode with the
+    ``**`` parameter turned into an ordinary last positional parameter."""
+    code = fn.__code__
+    if not code.co_flags & _CO_VARKEYWORDS or code.co_flags & _CO_VARARGS or code.co_kwonlyargcount:
+        raise TypeError("kw_entry: %s must have **kwargs and neither *args nor keyword-only parameters" % fn.__name__)
+    kwname = code.co_varnames[code.co_argcount]
+    new = code.replace(co_argcount=code.co_argcount + 1, co_flags=code.co_flags & ~_CO_VARKEYWORDS)
+    clone = types.FunctionType(new, fn.__globals__, fn.__name__, (fn.__defaults__ or ()) + (None,), fn.__closure__)
+    return clone, kwname
+
+
+def kw_wrapper(fn):
+    """Replacement for *fn* (same call signature): what Python's call protocol
+    put into ``**kwargs`` -- a plain dict that may hold the SymKey -- is turned
+    back into the proxy and the real body runs on it."""
+    clone, kwname = kw_entry(fn)
+    named = set(fn.__code__.co_varnames[:fn.__code__.co_argcount])
+
+    def wrapper(*args, **kw):
+        own = dict((k, v) for k, v in kw.items() if not isinstance(k, SymKey) and k in named)
+        rest = dict((k, v) for k, v in kw.items() if isinstance(k, SymKey) or k not in named)
+        ks = [k for k in rest if isinstance(k, SymKey)]
+        if ks:
+            val = next(v for k, v in rest.items() if k is ks[0])
+            proxy = SymKeyDict(dict((k, v) for k, v in rest.items() if not isinstance(k, SymKey)), ks[0], val)
+        else:
+            proxy = rest
+        own[kwname] = proxy
+        return clone(*args, **own)
+    wrapper.__name__ = fn.__name__
+    wrapper._verif_original = fn
+    return wrapper
+
+
+def install_kw_wrappers(targets):
+    """targets: list of (owner object, attribute name).  Returns an undo list."""
+    undo = []
+    for owner, attr in targets:
+        fn = owner.__dict__[attr] if isinstance(owner, type) else getattr(owner, attr)
+        if getattr(fn, "_verif_original", None) is not None:
+            continue
+        undo.append((owner, attr, fn))
+        setattr(owner, attr, kw_wrapper(fn))
+    return undo
+
+
+def undo_kw_wrappers(undo):
+    for owner, attr, fn in undo:
+        setattr(owner, attr, fn)
+
+
+import collections as _collections
+
+
+class SymAwareDict(_collections.OrderedDict):
+    """OrderedDict whose lookups with a SymKey compare it with every key."""
+
+    def _find(self, key):
+        for k in list(_collections.OrderedDict.keys(self)):
+            if key == k:            # SymKey.__eq__: forks
+                return k
+        return None
+
+    def __contains__(self, key):
+        if isinstance(key, SymKey):
+            return self._find(key) is not None
+        return _collections.OrderedDict.__contains__(self, key)
+
+    def __getitem__(self, key):
+        if isinstance(key, SymKey):
+            k = self._find(key)
+            if k is None:
+                raise KeyError(key)
+            key = k
+        return _collections.OrderedDict.__getitem__(self, key)
+
+    def __setitem__(self, key, value):
+        if isinstance(key, SymKey):
+            k = self._find(key)
+            if k is not None:
+                key = k
+        _collections.OrderedDict.__setitem__(self, key, value)
+
+    def get(self, key, default=None):
+        try:
+            return self[key]
+        except KeyError:
+            return default
